@@ -851,6 +851,7 @@ func (m *stringMap) Delete(k Value) {
 		return
 	}
 	m.keys = maps.Keys(m.data)
+	verifCanonKeysS(&m.keys)
 }
 
 func (m *stringMap) Range() func() (Value, Value, bool) {
@@ -931,6 +932,7 @@ func (m *numericMap) Delete(k Value) {
 		return
 	}
 	m.keys = maps.Keys(m.data)
+	verifCanonKeysF(&m.keys)
 }
 
 func (m *numericMap) Range() func() (Value, Value, bool) {
